@@ -52,7 +52,8 @@ def Can (e : Env) (nd : Nd) (child : Option Nd) : Prop := ∃ a, (nodeStep e a n
 theorem alert_out {e : Env} {nd : Nd} {child : Option Nd} {H : Nat} (hk : nd.kind = .alert H) (hD : DNode nd)
     (hleak : e.alertLeak = false) (hnd : nd.done = false)
     (hready : nd.failed = true ∨ (nd.hand = 0 ∧ nd.inq = 0 ∧ nd.inClosed = true ∧ nd.inited = true)) : Can e nd child := by
-  have hal : isAlert nd.kind = true := by simp [hk, isAlert]
+  have hal : bufK nd.kind = true := by simp [hk, bufK, isAlert]
+  have hal' : isAlert nd.kind = true := by simp [hk, isAlert]
   by_cases hhd : nd.helperDone = true
   · -- the node can return
     refine ⟨.exit, ?_⟩
@@ -68,16 +69,38 @@ theorem alert_out {e : Env} {nd : Nd} {child : Option Nd} {H : Nat} (hk : nd.kin
       · exact ⟨.handle, by simp [nodeStep, hk, hhd]; omega⟩
     · refine ⟨.closeOut, ?_⟩
       rcases hready with hf | ⟨h1, h2, h3, h4⟩
-      · have := hD.al hal (Or.inr (Or.inl hf))
+      · have := hD.al hal' (Or.inr (Or.inl hf))
         simp [nodeStep, hk, hnd, hf, hleak, this, hst]
       · cases hf : nd.failed with
         | true =>
-          have := hD.al hal (Or.inr (Or.inl hf))
+          have := hD.al hal' (Or.inr (Or.inl hf))
           simp [nodeStep, hk, hnd, hf, hleak, this, hst]
         | false => simp [nodeStep, hk, hnd, hf, h1, h2, h3, h4, hst]
 
+/-- the repaired influxDBOut node's way out: flush+abort (closeOut), the write-buffer goroutine exits, the node returns -/
+theorem influx_out {e : Env} {nd : Nd} {child : Option Nd} {B : Nat} (hk : nd.kind = .influx B) (hD : DNode nd)
+    (hea : e.influxEarlyAbort = false) (hnd : nd.done = false)
+    (hready : nd.failed = true ∨ (nd.hand = 0 ∧ nd.inq = 0 ∧ nd.inClosed = true)) : Can e nd child := by
+  have hb : bufK nd.kind = true := by simp [hk, bufK, isInflux]
+  by_cases hhd : nd.helperDone = true
+  · refine ⟨.exit, ?_⟩
+    have hst := hD.ah hb hhd
+    cases hf : nd.failed with
+    | true => simp [nodeStep, hnd, hf, exitFailedOk, hk, hhd]
+    | false =>
+      have := hD.as hb hst hf
+      simp [nodeStep, hnd, hf, exitOk, hk, hhd, this]
+  · by_cases hst : nd.stopping = true
+    · exact ⟨.helperExit, by simp [nodeStep, hk, hst, hhd]⟩
+    · refine ⟨.closeOut, ?_⟩
+      rcases hready with hf | ⟨h1, h2, h3⟩
+      · simp [nodeStep, hk, hnd, hf, hea, hst]
+      · cases hf : nd.failed with
+        | true => simp [nodeStep, hk, hnd, hf, hea, hst]
+        | false => simp [nodeStep, hk, hnd, hf, h1, h2, h3, hea, hst]
+
 theorem node_local {e : Env} {nd : Nd} {child : Option Nd} (hD : DNode nd)
-    (hhook : e.hookLock = false) (hleak : e.alertLeak = false) (hnd : nd.done = false)
+    (hhook : e.hookLock = false) (hleak : e.alertLeak = false) (hea : e.influxEarlyAbort = false) (hnd : nd.done = false)
     (hpre : nd.inq > 0 ∨ nd.inClosed = true ∨ nd.failed = true ∨ nd.hand = 1 ∨ (isUdf nd.kind = true ∧ nd.stopping = true)) :
     Can e nd child ∨
       (nd.failed = false ∧ nd.hand = 1 ∧ ∃ c, child = some c ∧ ¬ c.inq < e.cap ∧ c.inAborted = false) := by
@@ -87,6 +110,7 @@ theorem node_local {e : Env} {nd : Nd} {child : Option Nd} (hD : DNode nd)
     -- runF is returning an error
     cases hk : nd.kind with
     | alert H => exact Or.inl (alert_out hk hD hleak hnd (Or.inl hf))
+    | influx B => exact Or.inl (influx_out hk hD hea hnd (Or.inl hf))
     | _ => exact Or.inl ⟨.exit, by simp [nodeStep, hnd, hf, exitFailedOk, hk]⟩
   | false =>
     have hh := hD.hand1
@@ -94,12 +118,14 @@ theorem node_local {e : Env} {nd : Nd} {child : Option Nd} (hD : DNode nd)
     · -- a message in hand
       cases hk : nd.kind with
       | influx B =>
-        by_cases hhd : nd.helperDone = true
-        · have := hD.ih (by simp [hk, isInflux]) hhd
-          exact Or.inl ⟨.enqDrop, by simp [nodeStep, hk, hnd, hh1, this]⟩
-        · refine Or.inl ⟨.put, ?_⟩
-          simp only [nodeStep, hnd, hh1, hf, hk]
-          by_cases hb : nd.buf + 1 ≥ B <;> simp [hhd, hb]
+        have hb : bufK nd.kind = true := by simp [hk, bufK, isInflux]
+        have hhd : nd.helperDone = false := by
+          cases hh' : nd.helperDone with
+          | false => rfl
+          | true => have := hD.as hb (hD.ah hb hh') hf; omega
+        refine Or.inl ⟨.put, ?_⟩
+        simp only [nodeStep, hnd, hh1, hf, hk]
+        by_cases hbb : nd.buf + 1 ≥ B <;> simp [hhd, hbb]
       | loop => simp [hk, isLoop] at hnl
       | udf => have := hD.nu; simp [hk, isUdf] at this
       | pass | post | alert _ | fail _ | barrier _ =>
@@ -151,7 +177,11 @@ theorem node_local {e : Env} {nd : Nd} {child : Option Nd} (hD : DNode nd)
           rcases hcl with hcl | ⟨_, hst⟩
           · simp [nodeStep, hnd, hf, exitOk, hk, hh0, hq0, hcl]
           · simp [nodeStep, hnd, hf, exitOk, hk, hh0, hst]
-        | pass | post | influx _ | loop | fail _ | barrier _ =>
+        | influx B =>
+          rcases hcl with hcl | ⟨hu, _⟩
+          · exact Or.inl (influx_out hk hD hea hnd (Or.inr ⟨hh0, hq0, hcl⟩))
+          · simp [hk, isUdf] at hu
+        | pass | post | loop | fail _ | barrier _ =>
           rcases hcl with hcl | ⟨hu, _⟩
           · exact Or.inl ⟨.exit, by simp [nodeStep, hnd, hf, exitOk, hk, hh0, hq0, hcl]⟩
           · simp [hk, isUdf] at hu
@@ -166,7 +196,7 @@ theorem can_nodeCan {cfg : Cfg} {s : State} {i : Nat} {nd : Nd} (hi : s.nodes[i]
 /-- **Chain liveness**: a node that is not finished and has something to do (a message, a closed input, an error,
 an aborted UDF) — it or some node downstream of it can move. -/
 theorem chain_live {cfg : Cfg} {s : State} (hd : DInv s) (hcap : 1 ≤ cfg.cap) (hhook : cfg.hookLock = false)
-    (hleak : cfg.alertLeak = false) :
+    (hleak : cfg.alertLeak = false) (hea : cfg.influxEarlyAbort = false) :
     ∀ (m i : Nat) (nd : Nd), s.nodes.length - i ≤ m → s.nodes[i]? = some nd → nd.done = false →
       (nd.inq > 0 ∨ nd.inClosed = true ∨ nd.failed = true ∨ nd.hand = 1 ∨ (isUdf nd.kind = true ∧ nd.stopping = true)) →
       NodeCan cfg s := by
@@ -182,7 +212,7 @@ theorem chain_live {cfg : Cfg} {s : State} (hd : DInv s) (hcap : 1 ≤ cfg.cap) 
   | succ m ih =>
     intro i nd hm hi hnd hpre
     have hD := hd.nodes i nd hi
-    rcases node_local (e := env cfg s) (child := s.nodes[i+1]?) hD (by simp [env, hhook]) (by simp [env, hleak]) hnd hpre with hc | ⟨hf, hh1, c, hc, hfull, hnab⟩
+    rcases node_local (e := env cfg s) (child := s.nodes[i+1]?) hD (by simp [env, hhook]) (by simp [env, hleak]) (by simp [env, hea]) hnd hpre with hc | ⟨hf, hh1, c, hc, hfull, hnab⟩
     · exact can_nodeCan hi hc
     · -- blocked on the full input edge of the child: the child can move (or something below it)
       have hp := hd.pairs i nd c hi hc
@@ -236,7 +266,7 @@ theorem NodeCan.progress {cfg s} (h : NodeCan cfg s) : Progress cfg s := by
 
 /-- the fork goroutine holds tm.mu.RLock: it (or the chain below the source edge) can move -/
 theorem fork_put_live {cfg : Cfg} {s : State} (hd : DInv s) (hcap : 1 ≤ cfg.cap) (hhook : cfg.hookLock = false)
-    (hleak : cfg.alertLeak = false) (hne : s.nodes ≠ []) (hrl : s.forkRL = true) (h3 : rank s.ph ≤ 3) : Progress cfg s := by
+    (hleak : cfg.alertLeak = false) (hea : cfg.influxEarlyAbort = false) (hne : s.nodes ≠ []) (hrl : s.forkRL = true) (h3 : rank s.ph ≤ 3) : Progress cfg s := by
   by_cases hl : s.forkLoop = 1
   · exact ⟨.forkPut, by simp [step, hrl, hl]⟩
   · have hh : s.forkHand = 1 := by rcases hd.frl hrl with h | h; exact h; exact absurd h hl
@@ -263,12 +293,12 @@ theorem fork_put_live {cfg : Cfg} {s : State} (hd : DInv s) (hcap : 1 ≤ cfg.ca
                   · have := (hd.first nd h0).1 hcl; simp [this] at hreg
                   · have := (hd.stopP 0 nd h0 (by simp [hu])).mp hst
                     cases hph : s.ph <;> simp_all [abortedBy, rank]
-            exact (chain_live hd hcap hhook hleak s.nodes.length 0 nd (by omega) h0 hnd (Or.inl hq)).progress
+            exact (chain_live hd hcap hhook hleak hea s.nodes.length 0 nd (by omega) h0 hnd (Or.inl hq)).progress
     · exact ⟨.forkPut, by simp [step, hrl, hl, hh, hreg]⟩
 
 /-- **No deadlock**: under the protocol invariant, if the stop has not completely finished, some action is enabled. -/
 theorem progress_or_stopped {cfg : Cfg} {s : State} (hd : DInv s) (hcap : 1 ≤ cfg.cap) (hhook : cfg.hookLock = false)
-    (hleak : cfg.alertLeak = false) (hne : s.nodes ≠ []) : Progress cfg s ∨ s.stopped = true := by
+    (hleak : cfg.alertLeak = false) (hea : cfg.influxEarlyAbort = false) (hne : s.nodes ≠ []) : Progress cfg s ∨ s.stopped = true := by
   have stopOk : (stopStep cfg s).isSome = true → Progress cfg s := fun h => ⟨.stop, by simpa [step] using h⟩
   -- the node the stop is working on can move (or something downstream of it)
   have waitLive : ∀ (i : Nat) (nd : Nd), s.ph.idx = some i → s.nodes[i]? = some nd → nd.done = false → Progress cfg s := by
@@ -277,13 +307,13 @@ theorem progress_or_stopped {cfg : Cfg} {s : State} (hd : DInv s) (hcap : 1 ≤ 
     have hprev : ∀ k, k < i → doneBy s.ph k = true := by
       intro k hk; cases hph : s.ph <;> simp_all [Ph.idx, doneBy]
     have := inedge_closed hd hi hnd h5 hprev
-    exact (chain_live hd hcap hhook hleak s.nodes.length i nd (by omega) hi hnd (Or.inr (Or.inl this))).progress
+    exact (chain_live hd hcap hhook hleak hea s.nodes.length i nd (by omega) hi hnd (Or.inr (Or.inl this))).progress
   cases hph : s.ph with
   | idle => exact Or.inl (stopOk (by simp [stopStep, hph]))
   | closeIngest => exact Or.inl (stopOk (by simp [stopStep, hph]))
   | delFork => exact Or.inl (stopOk (by simp [stopStep, hph]))
   | etStop => exact Or.inl (stopOk (by simp [stopStep, hph]))
-  | flushed i => exact Or.inl (stopOk (by simp [stopStep, hph]))
+  | flushed i => exact absurd hph (hd.flK i).1
   | unlock => exact Or.inl (stopOk (by simp [stopStep, hph]))
   | waitFork =>
     left
@@ -291,7 +321,7 @@ theorem progress_or_stopped {cfg : Cfg} {s : State} (hd : DInv s) (hcap : 1 ≤ 
     · exact stopOk (by simp [stopStep, hph, hfd])
     · have hlk := hd.lk (by simp [hph, rank])
       by_cases hrl : s.forkRL = true
-      · exact fork_put_live hd hcap hhook hleak hne hrl (by simp [hph, rank])
+      · exact fork_put_live hd hcap hhook hleak hea hne hrl (by simp [hph, rank])
       · by_cases hh : s.forkHand = 1 ∨ s.forkLoop = 1
         · exact ⟨.forkLock, by simp [step, hh, hrl, hlk, hph, Ph.wantsLock]⟩
         · have h1 := hd.fh1
@@ -306,7 +336,7 @@ theorem progress_or_stopped {cfg : Cfg} {s : State} (hd : DInv s) (hcap : 1 ≤ 
     left
     have hlk := hd.lk (by simp [hph, rank])
     by_cases hrl : s.forkRL = true
-    · exact fork_put_live hd hcap hhook hleak hne hrl (by simp [hph, rank])
+    · exact fork_put_live hd hcap hhook hleak hea hne hrl (by simp [hph, rank])
     · exact stopOk (by simp [stopStep, hph, hrl, hlk])
   | wgWait =>
     left
@@ -321,43 +351,8 @@ theorem progress_or_stopped {cfg : Cfg} {s : State} (hd : DInv s) (hcap : 1 ≤ 
     | none => rw [List.getElem?_eq_none_iff] at hi; omega
     | some nd =>
       cases hk : nd.kind with
-      | influx B =>
-        have hns : nd.stopping = false := by
-          cases hst : nd.stopping with
-          | false => rfl
-          | true => have := (hd.stopP i nd hi (by simp [hk, isInflux])).mp hst; simp [hph, abortedBy] at this
-        have hnh : nd.helperDone = false := by
-          cases hh : nd.helperDone with
-          | false => rfl
-          | true => have := (hd.nodes i nd hi).ih (by simp [hk, isInflux]) hh; simp [hns] at this
-        exact stopOk (by simp [stopStep, hph, hi, hk, hnh])
-      | _ => exact stopOk (by simp [stopStep, hph, hi, hk])
-  | wbWait i =>
-    left
-    have hidx := hd.idxV i (by simp [hph, Ph.idx])
-    cases hi : s.nodes[i]? with
-    | none => rw [List.getElem?_eq_none_iff] at hi; omega
-    | some nd =>
-      by_cases hh : nd.helperDone = true
-      · exact stopOk (by simp [stopStep, hph, hi, hh])
-      · have hD := hd.nodes i nd hi
-        cases hk : nd.kind with
-        | influx B =>
-          have hst := (hd.stopP i nd hi (by simp [hk, isInflux])).mpr (by simp [hph, abortedBy])
-          exact (nodeCan_of (a := .helperExit) hi (by simp [nodeStep, hk, hst, hh]; rfl)).progress
-        | alert H =>
-          have hnd : nd.done = false := by
-            cases hdn : nd.done with
-            | false => rfl
-            | true => have := hD.ad (by simp [hk, isAlert]) hdn; exact absurd this hh
-          exact waitLive i nd (by simp [hph, Ph.idx]) hi hnd
-        | barrier d =>
-          have hnd : nd.done = false := by
-            cases hdn : nd.done with
-            | false => rfl
-            | true => have := hD.bd (by simp [hk, isBarrier]) hdn; exact absurd this hh
-          exact waitLive i nd (by simp [hph, Ph.idx]) hi hnd
-        | _ => have := hD.nh (by simp [hk, Kind.hasHelper]); exact absurd this hh
+      | _ => exact stopOk (by simp [stopStep, hph, hi, hk, hea])
+  | wbWait i => exact absurd hph (hd.flK i).2
   | wait i =>
     left
     have hidx := hd.idxV i (by simp [hph, Ph.idx])
@@ -377,8 +372,8 @@ theorem progress_or_stopped {cfg : Cfg} {s : State} (hd : DInv s) (hcap : 1 ≤ 
     have hD := hd.nodes j nd hj
     refine ⟨hdn, ?_⟩
     cases hk : nd.kind with
-    | alert H => exact hD.ad (by simp [hk, isAlert]) hdn
-    | influx B => exact hd.joinP j nd hj (by simp [hk, isInflux]) (by simp [hph, joinedBy])
+    | alert H => exact hD.ad (by simp [hk, bufK, isAlert]) hdn
+    | influx B => exact hD.ad (by simp [hk, bufK, isInflux]) hdn
     | barrier d => exact hD.bd (by simp [hk, isBarrier]) hdn
     | _ => exact hD.nh (by simp [hk, Kind.hasHelper])
 
@@ -390,7 +385,7 @@ theorem dinv_init (kinds : List Kind) (n : Nat) (hk : ∀ k ∈ kinds, isLoop k 
     have := hk k (List.mem_of_getElem? hki)
     have := hu k (List.mem_of_getElem? hki)
     constructor <;> simp_all [mkNd]
-    · cases k <;> simp_all [isAlert, Kind.hasHelper]
+    · cases k <;> simp_all [bufK, isAlert, isInflux, Kind.hasHelper]
     · cases k <;> simp_all [isInflux, Kind.hasHelper]
   · intro i nd c h h1
     obtain ⟨k, _, rfl⟩ := init_getElem? _ _ _ _ h
@@ -405,7 +400,7 @@ theorem dinv_init (kinds : List Kind) (n : Nat) (hk : ∀ k ∈ kinds, isLoop k 
     simp [mkNd, init, abortedBy]
   · intro k nd h _ hj; simp [init, joinedBy] at hj
   · intro i hi; simp [init, Ph.idx] at hi
-  · intro i nd hfl; simp [init] at hfl
+  · intro i; simp [init]
   · simp [init]
   · simp [init, rank]
   · simp [init, rank]
@@ -413,13 +408,14 @@ theorem dinv_init (kinds : List Kind) (n : Nat) (hk : ∀ k ∈ kinds, isLoop k 
   · simp [init]
   · simp [init]
 
-theorem dinv_run {cfg} {s : State} (hleak : cfg.alertLeak = false) (hd : DInv s) (as : List Act) : DInv (run cfg s as) := by
+theorem dinv_run {cfg} {s : State} (hleak : cfg.alertLeak = false) (hea : cfg.influxEarlyAbort = false) (hd : DInv s) (as : List Act) :
+    DInv (run cfg s as) := by
   induction as generalizing s with
   | nil => exact hd
   | cons a as ih =>
     simp only [run]
     split
-    · rename_i s' hs; exact ih (dinv_step hs hleak hd)
+    · rename_i s' hs; exact ih (dinv_step hs hleak hea hd)
     · exact ih hd
 
 theorem run_nodes_length {cfg} {s : State} (as : List Act) : (run cfg s as).nodes.length = s.nodes.length := by
